@@ -87,11 +87,27 @@ def judge_wif(ctx, case):
                     bad.append(("from_wif", k, bytes(back)))
                 elif back.K.sec() != secp.ser(secp.gmul(k)):
                     bad.append(("from_wif_pub", secp.ser(secp.gmul(k)), back.K.sec()))
+                else:
+                    # the imported key object must encode to EVERY flavour correctly (not only the one it came from)
+                    for c2 in (False, True):
+                        for t2 in (True, False):
+                            got2 = back.wif(compressed=c2, testnet=t2)
+                            if got2 != raddr.wif(k, c2, t2):
+                                bad.append(("reencode_after_from_wif(%s,%s)->(%s,%s)" % (comp, tn, c2, t2), raddr.wif(k, c2, t2), got2))
+                    if back.wif() != raddr.wif(k, True, False):
+                        bad.append(("reencode_after_from_wif.default", raddr.wif(k, True, False), back.wif()))
             except Exception as e:  # noqa
                 bad.append(("from_wif.raised", k, e))
             ctx.judge("wif_roundtrip", not bad, {"k": k, "compressed": comp, "testnet": tn}, want, bad,
                       cls="wif|%s|%s|%s" % ("c" if comp else "u", "t" if tn else "m", case["ktag"]),
-                      mech="C09.wif." + (bad[0][0] if bad else ""))
+                      mech="C09.wif." + (bad[0][0].split("(")[0] if bad else ""))
+    # the same key object asked repeatedly, in another order
+    order = [(True, True), (False, False), (True, False), (False, True), (True, True)]
+    for comp, tn in order:
+        g = pk.wif(compressed=comp, testnet=tn)
+        if g != raddr.wif(k, comp, tn):
+            ctx.judge("wif_roundtrip", False, {"k": k, "compressed": comp, "testnet": tn, "repeat": True}, raddr.wif(k, comp, tn), g,
+                      cls="wif|repeat", mech="C09.wif.repeat")
     # defaults: compressed mainnet
     d = pk.wif()
     ctx.judge("wif_roundtrip", d == raddr.wif(k, True, False), {"k": k, "default": True}, raddr.wif(k, True, False), d,
